@@ -79,19 +79,19 @@ Proof.
     intros; lia.
 Qed.
 
-Lemma split_count dl (es : list ((Z * bool) * (bool * bool))) :
-  (forall e, In e es -> negb ((fst (fst e) + dl =? 0)%Z && eff_use (snd e)) = true) ->
-  lenN (filter (fun e => (fst (fst e) + dl <? 0)%Z && eff_use (snd e)) es)
-  + lenN (filter (fun e => (0 <? fst (fst e) + dl)%Z && eff_use (snd e)) es)
-  = countb (map (fun e => eff_use (snd e)) es).
+Lemma split_count (g : bool * bool -> bool) dl (es : list ((Z * bool) * (bool * bool))) :
+  (forall e, In e es -> negb ((fst (fst e) + dl =? 0)%Z && g (snd e)) = true) ->
+  lenN (filter (fun e => (fst (fst e) + dl <? 0)%Z && g (snd e)) es)
+  + lenN (filter (fun e => (0 <? fst (fst e) + dl)%Z && g (snd e)) es)
+  = countb (map (fun e => g (snd e)) es).
 Proof.
   unfold countb. induction es as [|e t IH]; intros H; [reflexivity|].
   cbn [filter map].
   assert (He := H e (or_introl eq_refl)).
-  assert (Ht : forall e', In e' t -> negb ((fst (fst e') + dl =? 0)%Z && eff_use (snd e')) = true)
+  assert (Ht : forall e', In e' t -> negb ((fst (fst e') + dl =? 0)%Z && g (snd e')) = true)
     by (intros; apply H; right; assumption).
   specialize (IH Ht).
-  destruct (eff_use (snd e)); cbn [andb] in *.
+  destruct (g (snd e)); cbn [andb] in *.
   - rewrite Bool.andb_true_r in *.
     destruct (fst (fst e) + dl <? 0)%Z eqn:E1; destruct (0 <? fst (fst e) + dl)%Z eqn:E2;
       cbn [andb]; repeat rewrite lenN_cons.
@@ -121,8 +121,8 @@ Proof.
   replace (nth (length f0 + length f1) (f0 ++ f1 ++ [last]) (false, false)) with last
     by (rewrite app_assoc, <- app_length; symmetry; apply nth_middle).
   rewrite !lenN_app, !lenN_shifted, !filter_rev_lenN.
-  pose proof (split_count dl (combine (d_s0 ref) f0) Hz0) as S0.
-  pose proof (split_count dl (combine (d_s1 ref) f1) Hz1) as S1.
+  pose proof (split_count eff_use dl (combine (d_s0 ref) f0) Hz0) as S0.
+  pose proof (split_count eff_use dl (combine (d_s1 ref) f1) Hz1) as S1.
   rewrite <- (map_map snd eff_use), map_snd_combine_eq in S0 by (symmetry; exact H0).
   rewrite <- (map_map snd eff_use), map_snd_combine_eq in S1 by (symmetry; exact H1).
   rewrite !map_app, !countb_app. cbn [map].
@@ -137,6 +137,63 @@ Proof.
   cbv beta in *. clear - S0 S1 Hl. lia.
 Qed.
 
+Lemma countb_le l : countb l <= lenN l.
+Proof.
+  unfold countb. induction l as [|b t IH]; cbn [filter]; [lia|].
+  destruct b; repeat rewrite lenN_cons; lia.
+Qed.
+
+(* used flags of the entries kept by (7-61)/(7-62) *)
+Lemma countb_snd_shifted keep dl es :
+  countb (map snd (shifted keep dl es))
+  = lenN (filter (fun e => keep (fst (fst e) + dl)%Z && fst (snd e)) es).
+Proof.
+  unfold shifted, countb. induction es as [|e t IH]; [reflexivity|].
+  cbn [flat_map filter]. cbv beta zeta. rewrite map_app, filter_app, lenN_app, IH.
+  unfold eff_use.
+  destruct (keep (fst (fst e) + dl)%Z), (fst (snd e)), (snd (snd e)); cbn [andb orb map snd filter app];
+    repeat rewrite lenN_cons; unfold lenN at 1; cbn [length]; lia.
+Qed.
+
+(* NumPicTotalCurr contribution of an inter-predicted set = number of used_by_curr_pic_flag bits *)
+Lemma d_num_used_derive ref dl f0 f1 last :
+  length f0 = length (d_s0 ref) -> length f1 = length (d_s1 ref) -> dl <> 0%Z ->
+  no_zero_dpoc ref dl (f0 ++ f1 ++ [last]) = true ->
+  d_num_used (derive_rps ref dl (f0 ++ f1 ++ [last])) = countb (map fst (f0 ++ f1 ++ [last])).
+Proof.
+  intros H0 H1 Hd Hnz.
+  unfold no_zero_dpoc in Hnz.
+  rewrite combine_app_eq in Hnz by (symmetry; exact H0).
+  rewrite combine_app_short in Hnz by (symmetry; exact H1).
+  rewrite forallb_app in Hnz. apply andb_prop in Hnz. destruct Hnz as [Hz0 Hz1].
+  rewrite forallb_forall in Hz0, Hz1.
+  assert (Hw : forall es : list ((Z * bool) * (bool * bool)),
+             (forall e, In e es -> negb ((fst (fst e) + dl =? 0)%Z && eff_use (snd e)) = true) ->
+             forall e, In e es -> negb ((fst (fst e) + dl =? 0)%Z && fst (snd e)) = true).
+  { intros es Hes e Hin. specialize (Hes e Hin). unfold eff_use in Hes.
+    destruct (fst (fst e) + dl =? 0)%Z, (fst (snd e)), (snd (snd e)); cbn [andb orb negb] in *;
+      congruence. }
+  unfold derive_rps, d_num_used. cbv zeta. cbn [d_s0 d_s1].
+  rewrite <- H0, <- H1.
+  rewrite firstn_len_app, skipn_len_app, firstn_len_app.
+  replace (nth (length f0 + length f1) (f0 ++ f1 ++ [last]) (false, false)) with last
+    by (rewrite app_assoc, <- app_length; symmetry; apply nth_middle).
+  rewrite !map_app, !countb_app, !countb_snd_shifted, !filter_rev_lenN.
+  pose proof (split_count (fun f => fst f) dl (combine (d_s0 ref) f0) (Hw _ Hz0)) as S0.
+  pose proof (split_count (fun f => fst f) dl (combine (d_s1 ref) f1) (Hw _ Hz1)) as S1.
+  cbv beta in S0, S1.
+  rewrite <- (map_map snd fst), map_snd_combine_eq in S0 by (symmetry; exact H0).
+  rewrite <- (map_map snd fst), map_snd_combine_eq in S1 by (symmetry; exact H1).
+  cbn [map].
+  assert (Hl : countb (map snd (if (dl <? 0)%Z && eff_use last then [(dl, fst last)] else []))
+               + countb (map snd (if (0 <? dl)%Z && eff_use last then [(dl, fst last)] else []))
+               = countb [fst last]).
+  { unfold countb, eff_use.
+    destruct (fst last), (snd last); destruct (dl <? 0)%Z eqn:E1; destruct (0 <? dl)%Z eqn:E2;
+      cbn [andb orb map snd filter]; unfold lenN; cbn [length]; clear - Hd E1 E2; lia. }
+  cbv beta in *. clear - S0 S1 Hl. lia.
+Qed.
+
 (* ------------------------------------------------------------------ one st_ref_pic_set *)
 (* what the loop knows about the sets parsed so far: NumDeltaPocs is that of the derived set *)
 Definition rps_rel (a : hrps) (d : rps_derived) : Prop :=
@@ -144,7 +201,7 @@ Definition rps_rel (a : hrps) (d : rps_derived) : Prop :=
 
 Lemma parses_rps_inter_entry raw (e : bool * bool) pos :
   parses raw (hparse_rps_inter_entry BR) pos (fl (fst e) ++ opt_bits (negb (fst e)) (fl (snd e)))
-         (eff_use e).
+         (fst e, eff_use e).
 Proof.
   unfold hparse_rps_inter_entry.
   pbind ltac:(apply parses_flag).
@@ -202,6 +259,9 @@ Proof.
     assert (Hcnt : d_num_delta (derive_rps ref dl (f0 ++ f1 ++ [last]))
                    = countb (map eff_use (f0 ++ f1 ++ [last])))
       by (apply d_num_delta_derive; assumption).
+    assert (Hcntu : d_num_used (derive_rps ref dl (f0 ++ f1 ++ [last]))
+                    = countb (map fst (f0 ++ f1 ++ [last])))
+      by (apply d_num_used_derive; assumption).
     destruct (Forall2_nth_error_nth rps_rel acc prev (N.to_nat (idx - (di + 1))) (mkRpsD [] []) Hrel)
       as (a & Hnth & Ha1 & Ha2).
     { unfold lenN in Hlen. lia. }
@@ -223,9 +283,18 @@ Proof.
       rewrite Hnth, Ha1.
       plast ltac:(apply (parses_rep_n raw _
                            (fun e : bool * bool => fl (fst e) ++ opt_bits (negb (fst e)) (fl (snd e)))
-                           eff_use (f0 ++ f1 ++ [last]));
+                           (fun e : bool * bool => (fst e, eff_use e)) (f0 ++ f1 ++ [last]));
                   [lia | unfold loop_bound; lia | intros e pos' _; apply parses_rps_inter_entry]).
-      apply parses_ret_eq. rewrite <- Hcnt. unfold u8. rewrite N.mod_small by lia. reflexivity.
+      apply parses_ret_eq.
+      assert (M1 : map snd (map (fun e : bool * bool => (fst e, eff_use e)) (f0 ++ f1 ++ [last]))
+                   = map eff_use (f0 ++ f1 ++ [last])) by (rewrite map_map; reflexivity).
+      assert (M2 : map fst (map (fun e : bool * bool => (fst e, eff_use e)) (f0 ++ f1 ++ [last]))
+                   = map fst (f0 ++ f1 ++ [last])) by (rewrite map_map; reflexivity).
+      rewrite M1, M2, <- Hcnt, <- Hcntu.
+      assert (Hu : d_num_used (derive_rps ref dl (f0 ++ f1 ++ [last])) < 256).
+      { rewrite Hcntu. pose proof (countb_le (map fst (f0 ++ f1 ++ [last]))) as Hle.
+        unfold lenN in Hle. rewrite map_length in Hle. fold (lenN (f0 ++ f1 ++ [last])) in Hle. lia. }
+      unfold u8. rewrite !N.mod_small by lia. reflexivity.
     + unfold rps_rel. cbn [rps_ndelta]. split; [reflexivity | lia].
 Qed.
 
